@@ -6,9 +6,10 @@
 -/
 import NV.Driver.Core
 import NV.Driver.Cap
+import NV.Driver.Listen
 namespace NV
 
-def steppers : List (List String → Option String) := [stepCore, stepCap]
+def steppers : List (List String → Option String) := [stepCore, stepCap, stepListen]
 
 def step (line : String) : String :=
   let toks := line.splitOn " "
